@@ -156,6 +156,52 @@ func checkC18(c *Check) {
 		maps[m.Map] = true
 	}
 	c.Cond(len(maps) == 1, "register-mark", "one ready map", "-", "all operations address one map", fmt.Sprintf("operations address %d different maps", len(maps)))
+	// ... which is a field of the Health object set once, when the object is
+	// built: a map that can be allocated or swapped later (lazily, through an
+	// accessor) can lose the registrations made on the one it replaced
+	for _, m := range mops {
+		var alts []*Org
+		alts = append(alts, Deref(m.R.Of(m.Args[0]), 0)...)
+		for _, a := range alts {
+			root, names := a.FieldPath()
+			if !(a.K == "field" && root.K == "param" && len(names) >= 1) {
+				c.Bad("register-mark", "the ready map used by "+m.Method+" in "+m.Fn.Name(), p.InstrPos(m.Ins), "the map operated on is "+trimOrg(a.String())+", not a field of the Health object: it can be a map allocated or installed after construction, so registrations made on an earlier one are lost and readiness is reported without them")
+			}
+		}
+	}
+	nset := 0
+	for _, fn := range p.AllRepoFuncs() {
+		if FuncPkgPath(fn) != ModPath+"/internal/health" || fn.Blocks == nil {
+			continue
+		}
+		allInstrs(fn, func(in ssa.Instruction) {
+			var fa *ssa.FieldAddr
+			switch x := in.(type) {
+			case *ssa.Store:
+				fa, _ = x.Addr.(*ssa.FieldAddr)
+			case *ssa.Call:
+				// atomic.Pointer / atomic.Value held in the object: Store, Swap, CompareAndSwap
+				if sc := staticCallee(x.Common()); sc != nil && strings.HasPrefix(FuncPkgPath(sc), "sync/atomic") && (sc.Name() == "Store" || sc.Name() == "Swap" || sc.Name() == "CompareAndSwap") && len(x.Call.Args) > 0 {
+					fa, _ = x.Call.Args[0].(*ssa.FieldAddr)
+				}
+			}
+			if fa == nil {
+				return
+			}
+			nt := namedOf(fa.X.Type())
+			if nt == nil || nt.Obj() != ht.Object() {
+				return
+			}
+			ft := typeName(deref(fa.Type()))
+			if !strings.Contains(ft, "GenericSyncMap") && !strings.Contains(ft, "map[") && !strings.Contains(ft, "atomic.") {
+				return
+			}
+			nset++
+			_, fresh := fa.X.(*ssa.Alloc)
+			c.Cond(fresh, "register-mark", "assignment of Health."+fieldName(fa.X.Type(), fa.Field)+" in "+fn.Name(), p.InstrPos(in), "set while the object is being built", "the ready map of an existing Health object is (re)assigned after construction: registrations made before the assignment are lost")
+		})
+	}
+	c.Floor("assignments of the ready map field", 1, nset)
 
 	// 2. one snapshot in the builder
 	snapshotRule(c, builder, nil, overall, ready, notReady)
